@@ -417,6 +417,39 @@ func c02Trusted(c *Ctx, openers []CallSite) {
 		}
 		c.Check(n == 1, "C02.O8-hash-registry-untouched", "positive example fires", token.NoPos, "rule found the seeded registration in the embedded example (and none in /repo)", "rule did not find the seeded registration in its positive example: it would pass vacuously")
 	}
+	// a sync that failed (a block that did not verify ends the traversal with an error) is not reported as a success:
+	// the error of every call of the sync client in the per-publisher routine — and in the step helpers its segment
+	// loop may be split into — is looked at, not overwritten or dropped
+	if h := c15HandleFn(c); h != nil {
+		nS := 0
+		for _, st := range c.CallsInl(h, Invoke("dagsync.Syncer.Sync"), 2) {
+			nS++
+			eh := c.ErrPropagates(st.CallSite)
+			okE := eh.Kind == "checked-return" || eh.Kind == "returned-directly"
+			if !okE && eh.Kind != "dropped" {
+				// merged with another error before the test (err := Sync(); if err == nil { err = hookErr }): fine as long
+				// as the merged value is what gets tested
+				if call, ok := st.In.(*ssa.Call); ok && call.Referrers() != nil {
+					for _, r := range *call.Referrers() {
+						if ph, isPhi := r.(*ssa.Phi); isPhi {
+							if refs := ph.Referrers(); refs != nil {
+								for _, r2 := range *refs {
+									if bo, isBin := r2.(*ssa.BinOp); isBin && (bo.Op == token.NEQ || bo.Op == token.EQL) {
+										okE = true
+									}
+								}
+							}
+						}
+					}
+				}
+			}
+			c.Check(okE, "C02.O7-sync-error-kept", c.short(st.In.Parent().String())+" › sync client's error", st.In.Pos(), "the sync client's error is tested (or returned) by the routine that called it", "the sync client's error is "+eh.Kind+" ("+eh.Why+"): a traversal that stopped at a block that did not verify is reported as a successful sync")
+		}
+		if nS == 0 {
+			c.Unk("C02.O7-sync-error-kept", "dagsync › sync calls", token.NoPos, "no call of the sync client found in the per-publisher routine")
+		}
+		c.Floor("C02.O7-sync-error-kept", 2)
+	}
 	c.Floor("C02.O8-hash-registry-untouched", 2)
 	_ = n
 }
